@@ -78,6 +78,13 @@ Check C18_chunk_list_of_written_archive :
   chunk_list (write_raw_archive num es) = Ok (offsets_from 8 (archive_chunks num es)).
 Print Assumptions C18_chunk_list_of_written_archive.
 
+(* the two-entry example archive of ArchiveFacts (136 bytes): offsets as listed, AEND at 136 - 12 *)
+Example C18_offsets_example :
+  exists l, chunk_list ex_arch = Ok l /\ map snd l = [8; 28; 44; 59; 72; 84; 100; 112; 124] /\ len ex_arch = 136 /\
+  exists r, read_header read_chunk_stream ex_arch = Ok ({| a_major := 0; a_minor := 0; a_number := 7 |}, r) /\
+            seek_loop (S (length r)) r 0 false = Ok (124 - 28, false).
+Proof. eexists. split; [vm_compute; reflexivity|]. split; [reflexivity|]. split; [vm_compute; reflexivity|]. eexists. split; vm_compute; reflexivity. Qed.
+
 (* ---- seek_to_end ------------------------------------------------------------------------------------------------ *)
 (* seek_loop counts from the end of the 28-byte header; it walks length fields only (no CRC), yet on every input the
    chunk iterator accepts it ends exactly at the listed AEND offset, and reports a successor iff ANXT is listed *)
